@@ -17,6 +17,7 @@ LAYOUTS = {
     'corner3': ({"A": ((0.0, 0.0), ["B"]), "B": ((0.0, 1.0), ["C"]), "C": ((1.0, 1.0), [])}, True),
     'oneway4': ({"A": ((0.0, 0.0), ["B"]), "B": ((0.0, 1.0), ["C"]), "C": ((0.0, 2.0), ["D"]), "D": ((0.0, 3.0), [])}, True),
     'zerolen3': ({"A": ((0.0, 0.0), ["B"]), "B": ((0.0, 1.0), ["C"]), "C": ((0.0, 1.0), [])}, True),
+    'dash4': ({"A": ((0.0, 0.0), ["B-C"]), "B-C": ((0.0, 1.0), []), "A-B": ((1.0, 0.0), ["C"]), "C": ((1.0, 1.0), [])}, True),
     'tiny2': ({"A": ((0.0, 0.0), ["B"]), "B": ((0.0, 8e-05), ["A"])}, True),
     'tri': ({"A": ((0.0, 0.0), ["B"]), "B": ((0.0, 1.0), ["C"]), "C": ((1.0, 0.0), ["A"])}, False),
     'fork': ({"A": ((0.0, 0.0), ["B"]), "B": ((0.0, 1.0), ["C", "D"]), "C": ((1.0, 2.0), []), "D": ((-1.0, 2.0), [])}, False),
